@@ -139,6 +139,12 @@ func opsWorker(name string, res *core.Result, r *core.RNG, tier, out string) err
 		}
 		s.finish(&items)
 	}
+	if name == "slots" && core.Shard == 4%core.Shards {
+		// the report log is unwritable while deciding reports arrive
+		if err := reportWriteFault(res, r.Fork()); err != nil {
+			return err
+		}
+	}
 	if name == "equip" && core.Shard == 1%core.Shards {
 		// conflicting authorizations while the device's datagrams are in flight: the ban goes through, nothing dies
 		if err := schedBanInFlight(res, r.Fork()); err != nil {
@@ -171,10 +177,10 @@ func opsWorker(name string, res *core.Result, r *core.RNG, tier, out string) err
 }
 
 var requiredClasses = map[string][]string{
-	"slots":    {"dgram.report", "dgram.replay", "dgram.resigned-same-content", "outcome.changed", "slots.tour", "sched.burst", "slots.capacity-boundary", "long-run.restart"},
-	"weeks":    {"rotate.rotated", "stats.archived", "stats.live1", "stats.live2", "stats.future", "stats.misaligned", "stats.huge", "stats.false-negatives", "impact.round", "impact.negative-zero", "rotate.clock-behind-window", "weeks.tour"},
+	"slots":    {"dgram.report", "dgram.replay", "dgram.resigned-same-content", "outcome.changed", "slots.tour", "sched.burst", "slots.capacity-boundary", "long-run.restart", "report.write-fault"},
+	"weeks":    {"rotate.rotated", "stats.archived", "stats.live1", "stats.live2", "stats.future", "stats.misaligned", "stats.misaligned-archived", "stats.huge", "stats.false-negatives", "impact.round", "impact.negative-zero", "rotate.clock-behind-window", "weeks.tour"},
 	"restart":  {"restart", "restart.catchup", "restart.tour", "restart.write-fault-tour", "register.write-fault", "long-run.restart"},
-	"equip":    {"authorize.new", "authorize.duplicate", "authorize.bad-signature", "authorize.conflict-field", "authorize.conflict-other-key", "authorize.banned-id", "authorize.before-registration", "authorize.conflict-signed-zero", "equip.tour", "authorize.conflict-during-impact-job", "authorize.conflict-write-fault", "equip.id-zero", "sched.ban-in-flight"},
+	"equip":    {"authorize.new", "authorize.duplicate", "authorize.bad-signature", "authorize.conflict-field", "authorize.conflict-other-key", "authorize.banned-id", "authorize.before-registration", "authorize.conflict-signed-zero", "equip.tour", "authorize.conflict-during-impact-job", "authorize.conflict-write-fault", "authorize.malleated-twin", "equip.id-zero", "sched.ban-in-flight"},
 	"register": {"register.valid", "register.wrong-signer", "register.altered-key", "register.other-valid", "register.by-gca", "register.write-fault", "register.damaged-key-file", "register.tour"},
 	"hostile":  {"dgram.hostile-random", "stats.misaligned", "hostile.tour", "peer.ban-reannounce", "shutdown.idle-connections", "shutdown.http-partial-body"},
 	"crash":    {"crash.image", "crash.recovered", "restart"},
